@@ -31,6 +31,42 @@ def lib_calls(ctx, f, names):
     return out
 
 
+def _truthy(v):
+    return v not in ("False", "None", "0")
+
+
+# (keyword, encoder) -> predicate on the source text of the value: does this setting lose data?
+LOSSY_OPTIONS = {
+    ("skipkeys", "json.dumps"): _truthy,                                      # dict entries with a non-JSON key vanish
+    ("use_bin_type", "msgpack.packb"): lambda v: not _truthy(v),              # bytes arrive as str
+    ("unicode_errors", "msgpack.packb"): lambda v: v not in ("'strict'", "None"),
+    ("use_single_float", "msgpack.packb"): _truthy,                           # doubles rounded to 32 bit
+    ("indent", "serpent.dumps"): lambda v: False,
+}
+
+
+def _spread_literal(ctx, f, expr):
+    """{**<expr>} in an encoder call: the options when <expr> names a dict display of the class body or the module ({k: source text}), else None"""
+    name = expr.attr if isinstance(expr, ast.Attribute) else expr.id if isinstance(expr, ast.Name) else None
+    if name is None:
+        return None
+    cands = []
+    if f.cls is not None:
+        mangled = "_%s%s" % (f.cls.name.lstrip("_"), name) if name.startswith("__") and not name.endswith("__") else name
+        for st in f.cls.node.body:
+            if isinstance(st, ast.Assign) and len(st.targets) == 1 and isinstance(st.targets[0], ast.Name) and st.targets[0].id in (name, mangled):
+                cands.append(st.value)
+    for st in f.module.tree.body:
+        if isinstance(st, ast.Assign) and len(st.targets) == 1 and isinstance(st.targets[0], ast.Name) and st.targets[0].id == name:
+            cands.append(st.value)
+    for v in cands:
+        if isinstance(v, ast.Dict) and all(isinstance(k, ast.Constant) for k in v.keys):
+            return {k.value: unparse(x) for k, x in zip(v.keys, v.values)}
+        if isinstance(v, ast.Call) and isinstance(v.func, ast.Name) and v.func.id == "dict" and not v.args:
+            return {k.arg: unparse(k.value) for k in v.keywords if k.arg}
+    return None
+
+
 def kwmap(call):
     return {k.arg: unparse(k.value) for k in call.keywords if k.arg}
 
@@ -164,6 +200,21 @@ def run(ctx, R, tier):
         ok = any(rccfg.guarded(n, lambda e: edge_has_fact(e, is_kind)) for n in rec_nodes)
         R.check(ok, "C01-R5", "recreate_classes|%s" % kind, "class-tagged values nested in a %s are re-created" % kind, rc.loc(),
                 "recreate_classes does not descend into %s values: a URI/exception/set inside such a container arrives as a raw dict" % kind)
+    # the caller's keyword arguments reach the user method as given, whatever their names: a function of the client/server that takes **kwargs and passes them on must not
+    # have named parameters of its own next to them (apart from self) - `def f(self, method, *a, **kw)` called with a user keyword `method=...` fails with
+    # "multiple values for argument" and the call never happens
+    n_fw = 0
+    for g in [x for x in p.functions.values() if x.module.name in ("Pyro5.client", "Pyro5.server") and not isinstance(x.node, ast.Lambda)]:
+        kw = g.node.args.kwarg
+        if kw is None:
+            continue
+        n_fw += 1
+        named = [a.arg for a in g.node.args.args + g.node.args.kwonlyargs if a.arg not in ("self", "cls")]
+        R.check(not named, "C01-R7", "%s|user-keywords-cannot-collide" % g.qualname.split(".", 2)[2], "a function that forwards **%s has no named parameter that a user keyword could collide with" % kw.arg, g.loc(),
+                "%s(%s, **%s): a remote call that passes a keyword argument named %s never reaches the user's method (TypeError: multiple values for argument) - for a oneway call "
+                "nobody is told" % (g.name, ", ".join(named), kw.arg, "/".join(repr(x) for x in named)))
+    if n_fw < 2:
+        raise AnalysisError("client.py: the **kwargs-forwarding __call__ methods vanished")
     # a result travels the same way from a batch as from a plain call: what the batch loop collects for a successful member is the method's return value itself
     hr_ = ctx.fn("Pyro5.server.Daemon.handleRequest")
     rd_ = ctx.rd(hr_)
@@ -266,6 +317,19 @@ def run(ctx, R, tier):
             ka, kb = kwmap(el[0][0]), kwmap(elc[0][0])
             R.check(ka == kb, "C01-R2", "%s|encode-keywords" % name, "same keyword arguments on both paths", m["dumpsCall"].loc(elc[0][0]),
                     "results are encoded with %s but calls with %s" % (ka, kb))
+            # the encoder either encodes ALL of the value or raises: an option that makes it drop or rewrite what it cannot express turns "cannot be sent" (an error at
+            # the sender, reported) into a different value at the receiver, silently
+            for lc_fn, lc in ((m["dumps"], el[0][0]), (m["dumpsCall"], elc[0][0])):
+                opts = dict(kwmap(lc))
+                for k in lc.keywords:
+                    if k.arg is None:
+                        lit = _spread_literal(ctx, lc_fn, k.value)
+                        if lit is not None:
+                            opts.update(lit)
+                lossy = [(k, v) for k, v in sorted(opts.items()) if (k, el[0][1]) in LOSSY_OPTIONS and LOSSY_OPTIONS[(k, el[0][1])](v)]
+                R.check(not lossy, "C01-R2", "%s.%s|encoder-keeps-everything-or-raises" % (name, lc_fn.name), "no option of %s that drops or rewrites data it cannot express" % el[0][1], lc_fn.loc(lc),
+                        "%s is called with %s: values the format cannot express are dropped or altered instead of refused - the receiver gets a value that differs from the one sent and "
+                        "nobody is told" % (el[0][1], ", ".join("%s=%s" % kv for kv in lossy)))
             # pre-conversion (marshal): applied to data iff applied to every varg and every kwarg value
             pa = applies(ctx, m["dumps"], el[0][0].args[0], "convert_obj_into_marshallable", ctx.node_of(m["dumps"], el[0][0])[0])
             arg = elc[0][0].args[0]
@@ -428,6 +492,19 @@ def run(ctx, R, tier):
             conv.loc(mutated[0]) if mutated else conv.loc(),
             "`%s` records visited containers in one object shared by the whole conversion: a value that merely contains the same list or tuple twice (no cycle) is refused as circular, "
             "e.g. a batch whose calls share an argument" % (unparse(mutated[0]) if mutated else ""))
+    # ... and it travels WITH the recursion (an argument of each recursive call): a record kept anywhere else - on the serializer, in a thread-local, at module level -
+    # outlives a conversion that fails half-way (nothing pops it) and then condemns later, perfectly plain values that reuse one of those containers
+    raisers = [n for n in walk_no_nested(conv.node) if isinstance(n, ast.Raise) and n.exc is not None and "circular" in unparse(n.exc).lower()]
+    cfg_c = ctx.cfg(conv)
+    okg = bool(raisers) and bool(guard_params)
+    why_g = "the circular-reference refusal vanished" if not raisers else "the conversion function has no parameter that carries the containers on the current path"
+    if okg:
+        def on_the_path(atom, pol):
+            return pol is True and any(isinstance(x, ast.Name) and x.id in guard_params for x in ast.walk(atom))
+        okg = all(cfg_c.guarded(n, lambda e: edge_has_fact_local(e, on_the_path)) for r_ in raisers for n in cfg_c.nodes_for(r_))
+        why_g = "the test that refuses a circular reference does not look at the record passed down the recursion (`%s`) but at state kept elsewhere" % ", ".join(guard_params)
+    R.check(okg, "C01-R10", "convert_obj_into_marshallable|cycle-guard-travels-with-the-recursion", "the containers on the current path are a parameter of the recursive conversion, tested where 'circular' is refused",
+            conv.loc(raisers[0]) if raisers else conv.loc(), why_g + ": after one conversion that failed half-way the leftover record makes later values that reuse a container fail as 'circular'")
     rec = [c for c in walk_no_nested(conv.node) if isinstance(c, ast.Call) and isinstance(c.func, ast.Attribute) and c.func.attr == conv.name
            and isinstance(c.func.value, ast.Name) and c.func.value.id == conv.self_name]
     R.check(len(rec) >= 2, "C01-R10", "convert_obj_into_marshallable|recurses-into-members", "members of sequences/sets and values of dicts are converted recursively (%d recursive calls)" % len(rec),
@@ -454,11 +531,11 @@ def run(ctx, R, tier):
             "is a slice of the receive buffer, so the decoder is handed annotation bytes as well" % (unparse(bad, 70) if bad is not None else "", cb.loc(bad) if bad is not None else ""))
 
     # ---------------------------------------------------------------- R3
-    from ..report import Rules
+    from ..report import Rules, run_shared as _run_shared
     from . import c06
     R6 = Rules("C06")
     try:
-        c06.run(ctx, R6, tier)
+        _run_shared(ctx, c06, R6, tier)
     except AnalysisError as _shared_x:
         # the other property's own anchors are gone on this tree: its check reports that; what it produced before is still shared
         R.note("obligations shared from C06 are incomplete on this tree: %s" % _shared_x)
